@@ -100,6 +100,7 @@ class SimFS:
 
     def symlink(self, src: str, dst: str) -> None:
         self._seam("symlink", dst)
+        self._create_fault()
         if dst in self.links or dst in self.files:
             raise FileExistsError(errno.EEXIST, "File exists", dst)
         self.links[dst] = src
@@ -127,6 +128,7 @@ class SimFS:
     def os_open(self, p: str, flags: int) -> int:
         self._seam("open_excl" if flags & _os.O_EXCL else "open", p)
         if flags & _os.O_EXCL and flags & _os.O_CREAT:
+            self._create_fault()
             if p in self.links or p in self.files:
                 raise FileExistsError(errno.EEXIST, "File exists", p)
             self.files[p] = self._new_inode()
@@ -144,6 +146,15 @@ class SimFS:
     def os_close(self, fd: int) -> None:
         # closing a descriptor has no effect visible to anyone else: not a yield point
         self.fds.pop(fd, None)
+
+    def _create_fault(self) -> None:
+        """A transient error of a system call that creates a directory entry (descriptor
+        table full, quota, I/O error): nothing is created."""
+        if self.io_fault is not None:
+            en = self.io_fault(self.sim.cur, "create")
+            if en:
+                self.sim.count("fs.io_error@create")
+                raise OSError(en, _os.strerror(en))
 
     def fsync(self, fd: int) -> None:
         self._seam("fsync")
